@@ -104,6 +104,9 @@ class EditPacketizer(F.RecPacketizer):
     (empty = drop).  The hook sees every message its transport emits, before compression /
     encryption, so the substituted message travels through the real packetizer in both phases.
     `empty_next`: the next emitted packet carries a zero-length payload (not even a type byte).
+    `zedit`: (kind, callback) - once outbound compression is on, the *compressed* payload of the next
+    packet is replaced by `z_edit(kind, ...)` (the deviation sits below the message layer: the victim's
+    decompressor is what parses it); callback(compressed, edited) reports what went out.
     """
 
     def __init__(self, sock):
@@ -111,6 +114,28 @@ class EditPacketizer(F.RecPacketizer):
         self.hook = None
         self.empty_next = False
         self.counts = {}
+        self.zedit = None
+        self._zon = False
+
+    def set_outbound_compressor(self, compressor):
+        self._zon = compressor is not None
+        if compressor is None:
+            return F.RecPacketizer.set_outbound_compressor(self, None)
+
+        def engine(data):
+            comp = compressor(data)
+            if self.zedit is not None:
+                (kind, cb), self.zedit = self.zedit, None
+                edited = z_edit(kind, comp, data)
+                if cb is not None:
+                    cb(comp, edited)
+                return edited
+            return comp
+        return F.RecPacketizer.set_outbound_compressor(self, engine)
+
+    def zactive(self):
+        """Is outbound compression switched on (zlib: after NEWKEYS; zlib@openssh.com: after auth)?"""
+        return self._zon
 
     def send_message(self, data):
         raw = data.asbytes() if hasattr(data, "asbytes") else bytes(data)
@@ -334,6 +359,25 @@ def deviations(spec, quick_types=(), all_types=False):
     return out
 
 
+# Deviations below the message layer: what the peer puts where the compressed payload belongs (only
+# meaningful when compression was negotiated and is active for the packet).
+Z_DEVS = [("z", "garbage"), ("z", "trunc"), ("z", "empty"), ("z", "fresh-stream")]
+
+
+def z_edit(kind, comp, payload):
+    """compressed bytes of the honest payload -> what the deviating peer sends instead."""
+    if kind == "garbage":          # not deflate data: block type 3 (mid-stream) / compression method 7 (stream start)
+        return b"\x07" + b"\xde\xad\xbe\xef" * 4
+    if kind == "trunc":            # half of the deflate block: the next honest packet continues a broken block
+        return comp[:len(comp) // 2]
+    if kind == "empty":
+        return b""
+    if kind == "fresh-stream":     # a complete new zlib stream (header .. Z_FINISH) in the middle of the old one
+        import zlib
+        return zlib.compress(payload)
+    raise ValueError(kind)
+
+
 def _edit_field(f, d):
     """Encoded field bytes -> deviating encoded field bytes."""
     if d == "empty":
@@ -374,7 +418,7 @@ def apply_deviation(dev, raw, spec, filler=b"\xa5" * 64):
     what = dev[0]
     if what == "ptype-empty":
         return bytes([dev[1]])
-    if what == "as-built":
+    if what in ("as-built", "z"):      # "z": the message is honest, its compressed form is edited (EditPacketizer.zedit)
         return raw
     if what == "wrongtype":
         return bytes([dev[1]]) + body
